@@ -67,6 +67,14 @@ io_status_t PacketTunnelIOGateway :: DoInputImplementation(AbstractGatewayMessag
             const uint32 totalSize = unflat.ReadInt32();
 //printf("   PARSE magic=" UINT32_FORMAT_SPEC "/" UINT32_FORMAT_SPEC " sex=" UINT32_FORMAT_SPEC "/" UINT32_FORMAT_SPEC " messageID=" UINT32_FORMAT_SPEC " offset=" UINT32_FORMAT_SPEC " chunkSize=" UINT32_FORMAT_SPEC " totalSize=" UINT32_FORMAT_SPEC "\n", magic, _magic, sexID, _sexID, messageID, offset, chunkSize, totalSize);
 
+            if ((magic == _magic)&&((_sexID == 0)||(_sexID != sexID))&&(unflat.GetNumBytesAvailable() >= chunkSize)&&(totalSize > _maxIncomingMessageSize))
+            {
+               // This chunk belongs to a Message that is too large for us to accept, so skip it -- but keep going, since the
+               // other chunks in this packet may belong to other Messages that are perfectly acceptable
+               (void) unflat.SeekRelative(chunkSize);
+               continue;
+            }
+
             if ((magic == _magic)&&((_sexID == 0)||(_sexID != sexID))&&((unflat.GetNumBytesAvailable() >= chunkSize)&&(totalSize <= _maxIncomingMessageSize)))
             {
                ReceiveState * rs = _receiveStates.GetAndMoveToBack(fromIAP);  // keep the "hot" ReceiveStates at the end of the iteration-list
